@@ -60,6 +60,10 @@ class Check(PropertyCheck):
                         cur[name] = c.value
                     else:
                         cur[name] = min(0xFFFF, c.value + rng.randrange(1, 300))
+                # what the NCP reports for the capacity settings the PROPERTY names (the list above, not the library's table)
+                for k in CAPACITY:
+                    if k in keys and k not in cur:
+                        cur[k] = rng.choice([None, 1, 12, 100, 250, 500, 0xFFFF])
                 for k in user:
                     if k not in cur:
                         cur[k] = rng.choice([None, 0, 3, 12, 250])
